@@ -34,7 +34,7 @@ ASSUMPTIONS = [
     "the recording happens inside the harness plugin's compute, i.e. at the plugin boundary strax promises",
 ]
 REQUIRED = {"compute_calls": 500, "runs_completed": 200, "rows_delivered": 500, "same_kind_merges": 50,
-            "early_end_cases": 10}
+            "early_end_cases": 10, "mp_join_cases": 10, "mp_leftover_cases": 5}
 UNIT_TIMEOUT = 1200
 
 
@@ -223,12 +223,98 @@ def units(tier, seed):
     for k in range(8 if q else 32):
         us.append({"name": f"rand-{k}", "fam": "rand", "seed": seed, "lo": k * (150 if q else 1500),
                    "hi": (k + 1) * (150 if q else 1500)})
+    for k in range(2 if q else 6):
+        us.append({"name": f"mpjoin-{k}", "fam": "mpjoin", "seed": seed * 100 + k, "n": 8 if q else 30})
     return us
+
+
+# ---------------------------------------------------------------- the same plugin inlined into a process pool
+def mp_join_cases(seed, n):
+    """Two inputs of different kinds for a saved-by-default plugin with parallel='process' (+ a parallel plugin
+    behind it, so that strax inlines both into a ParallelSourcePlugin). Half of the cases leave undeliverable
+    rows (the second input goes on after the pacemaker has ended)."""
+    out = []
+    for i in range(n):
+        rng = gen.rng_for(seed, "c08mp", i)
+        rows_a, end_a = gen.gen_disjoint_rows(rng, rng.randint(1, 5), 0, 1)
+        rows_b, end_b = gen.gen_disjoint_rows(rng, rng.randint(1, 5), 0, 1)
+        leftover = i % 2 == 1
+        if leftover:
+            t_a = end_a + rng.choice([0, 2])
+            # b goes on beyond the end of a and has a row there
+            rows_b = [r for r in rows_b if r[1] <= t_a] + [(t_a + 1, t_a + 3, 77)]
+            t_b = t_a + rng.choice([3, 6])
+        else:
+            t_a = t_b = max(end_a, end_b) + rng.choice([0, 2])
+        rows_b = [(s, e, 1000 + k) for k, (s, e, _) in enumerate(rows_b)]
+        cuts_a = gen.gen_cuts(rng, rows_a, 0, t_a, 1, max_inner=3, allow_zero=False)
+        cuts_b = gen.gen_cuts(rng, rows_b, 0, t_b, 1, max_inner=3, allow_zero=False)
+        if leftover and cuts_b[-2] > t_a:
+            cuts_b = [c for c in cuts_b if c <= t_a or c == t_b]  # the leftover row sits in b's LAST chunk
+        out.append({"mp_join": True, "rows_a": rows_a, "rows_b": rows_b, "cuts_a": cuts_a, "cuts_b": cuts_b, "leftover": leftover})
+    return out
+
+
+def run_mp_join(case):
+    import multiprocessing as _mp
+
+    from vf.harness import mp_plugins as mp
+
+    if _mp.get_start_method(allow_none=True) != "forkserver":
+        _mp.set_start_method("forkserver", force=True)
+        _mp.set_forkserver_preload(["strax", "vf.harness.mp_plugins"])
+    cfg = dict(mpj_rows_a=tuple(map(tuple, case["rows_a"])), mpj_rows_b=tuple(map(tuple, case["rows_b"])),
+               mpj_cuts_a=tuple(case["cuts_a"]), mpj_cuts_b=tuple(case["cuts_b"]))
+    outcomes = {}
+    for mode in ("single_thread", "threaded", "process_pool_inlined"):
+        d = hrun.mktemp("c08mp-")
+        try:
+            kw = dict(processors=["single_thread"]) if mode == "single_thread" else dict(processors=["threaded_mailbox"], allow_lazy=False)
+            if mode == "process_pool_inlined":
+                kw["allow_multiprocess"] = True
+            st = strax.Context(storage=[strax.DataDirectory(d)], register=mp.JOIN, config=cfg, timeout=60, max_messages=10, **kw)
+            try:
+                with common.quiet():
+                    a = st.get_array("0", "mpjdown", progress_bar=False, max_workers=2 if mode == "process_pool_inlined" else None)
+                outcomes[mode] = ("rows", a["v0"].tolist())
+            except Exception as e:  # noqa: BLE001
+                if "Timeout" in type(e).__name__:
+                    outcomes[mode] = ("timeout", str(e)[:100])
+                else:
+                    outcomes[mode] = ("error", type(e).__name__ + ": " + str(e)[:120])
+        finally:
+            hrun.rm(d)
+    viol = []
+    ref = outcomes["single_thread"]
+    for mode in ("threaded", "process_pool_inlined"):
+        o = outcomes[mode]
+        if o[0] == "timeout" or ref[0] == "timeout":
+            continue
+        if o[0] != ref[0] or (o[0] == "rows" and o[1] != ref[1]):
+            kind = "leftover-rows-dropped" if (ref[0] == "error" and o[0] == "rows") else "mode-difference"
+            viol.append({"sig": {"kind": kind, "mode": mode, "leftover": case["leftover"]},
+                         "what": f"{kind}: {mode} gives {o}, the single-thread processor {ref} for the same inputs and chunkings"[:600],
+                         "case": case})
+    if case["leftover"] and ref[0] != "error":
+        viol.append({"sig": {"kind": "leftover-accepted", "mode": "single_thread"},
+                     "what": f"undeliverable rows of the second input were accepted: {ref}"[:400], "case": case})
+    return viol, {"mp_join_cases": 1, "mp_leftover_cases": int(case["leftover"])}
 
 
 def run_unit(u):
     cl.install(strax)
     res = {"evaluations": 0, "hashes": [], "distinct": 0, "counters": {}, "samples": [], "violations": [], "inconclusive": []}
+    if u["fam"] == "mpjoin":
+        for case in mp_join_cases(u["seed"], u["n"]):
+            viol, cnt = run_mp_join(case)
+            res["evaluations"] += 1
+            res["hashes"].append(common.chash(case))
+            for k, v in cnt.items():
+                res["counters"][k] = res["counters"].get(k, 0) + v
+            res["violations"].extend(viol[:2])
+            if not res["samples"]:
+                res["samples"].append(case)
+        return res
 
     def one(case, by_hash):
         viol, cnt, nt, inc = run_case(case)
@@ -260,6 +346,8 @@ def run_unit(u):
 
 def replay(case):
     cl.install(strax)
+    if case.get("mp_join"):
+        return run_mp_join(case)[0]
     viol, cnt, nt, inc = run_case(case)
     for i in inc:
         print("INCONCLUSIVE:", i)
